@@ -37,6 +37,14 @@ const cachedForeign = "https://r1.example/n/cached"
 const noteEmptyOrdered = "https://l.example/n/empty-ordered"
 const noteEmptyColl = "https://l.example/n/empty-unordered"
 const ownedMissing = "https://l.example/n/404"
+
+// ownership is a per-IRI question: a value on this server's host that another tenant owns (stored,
+// with likes / shares of its own), a local IRI that is neither owned nor stored, and a value on a
+// foreign host that this server owns
+const localForeign = "https://l.example/n/other-tenant"
+const localDangling = "https://l.example/n/dangling-not-owned"
+const remoteOwned = "https://r1.example/n/owned-by-us"
+const localForeignCol = "https://l.example/c/other-tenant"
 const followBob = "https://l.example/f/bob"   // stored, but it is Bob's Follow
 const followNone = "https://l.example/f/none" // not stored at all
 
@@ -57,6 +65,11 @@ func c04world(a *ap.App) {
 	a.PutDoc(Doc("Collection", RCol, "items", L{Carol}))
 	a.PutDoc(Doc("Note", RNote, "attributedTo", Carol, "content", "remote", "inReplyTo", Note1))
 	a.NotOwned[ownedMissing] = false
+	a.NotOwned[localForeign], a.NotOwned[localDangling], a.NotOwned[localForeignCol] = true, true, true
+	a.OwnedExtra[remoteOwned] = true
+	a.PutDoc(Doc("Note", localForeign, "content", "another tenant's", "likes", Emb("OrderedCollection", "", "orderedItems", L{"https://r9.example/l/t"}), "shares", Emb("Collection", "", "items", L{"https://r9.example/s/t"})))
+	a.PutDoc(Doc("Note", remoteOwned, "content", "ours on another host"))
+	a.PutDoc(Doc("Collection", localForeignCol, "items", L{Dave}))
 	// owned objects whose likes / shares collections exist but are empty
 	a.PutDoc(Doc("Note", noteEmptyOrdered, "content", "e1", "likes", Emb("OrderedCollection", "", "totalItems", 0), "shares", Emb("OrderedCollection", "", "totalItems", 0)))
 	a.PutDoc(Doc("Note", noteEmptyColl, "content", "e2", "likes", Emb("Collection", "", "totalItems", 0), "shares", Emb("Collection", "", "totalItems", 0)))
@@ -385,13 +398,13 @@ func c04cases(thorough bool) []c04case {
 	}
 	for _, typ := range []string{"Add", "Remove"} {
 		for _, objs := range combos([]interface{}{RNote, rn(10), Dave, Carol}, maxN) {
-			for _, tg := range combos([]interface{}{Col1, OCol1, RCol, Note1, Emb("Collection", Col1)}, maxN) {
+			for _, tg := range combos([]interface{}{Col1, OCol1, RCol, Note1, Emb("Collection", Col1), localForeignCol}, maxN) {
 				add(typ, Doc(typ, RAct, "actor", Carol, "object", val(objs), "target", val(tg)), 0)
 			}
 		}
 	}
 	for _, typ := range []string{"Like", "Announce"} {
-		for _, objs := range combos([]interface{}{Note1, Note2, cachedForeign, Emb("Note", Note1, "content", "peer's copy"), ownedMissing, noteEmptyOrdered, noteEmptyColl}, maxN) {
+		for _, objs := range combos([]interface{}{Note1, Note2, cachedForeign, Emb("Note", Note1, "content", "peer's copy"), ownedMissing, noteEmptyOrdered, noteEmptyColl, localForeign, localDangling, remoteOwned}, maxN) {
 			add(typ, Doc(typ, RAct, "actor", Carol, "object", val(objs)), 0)
 		}
 	}
